@@ -32,6 +32,11 @@ package eval
 //@ func MakeValueString
 //@   pure
 //@   ensures [value] freshS(result, val)
+//@ func MakeValueList
+//@   pure
+//@   ensures [list] fresh(result) && isList(result) && fresh(listOf(result))
+//@   ensures [empty-own] values == nil ==> len(listOf(result).Value) == 0 && fresh(listOf(result).Value)
+//@   ensures [given] values != nil ==> listOf(result).Value == values
 //@ func MakeValueSet
 //@   pure
 //@   ensures [empty-set] fresh(result) && isSet(result) && fresh(setOf(result)) && len(setOf(result).Value) == 0
@@ -213,3 +218,20 @@ package eval
 //@   requires obj != nil
 //@   ensures [list] old(isList(obj)) ==> result == listOf(obj).Value
 //@   ensures [set] old(isSet(obj)) ==> result == setOf(obj).Value
+
+// where / flatten build their result in storage of their own: apart from (re)binding the scope variable in the
+// scope map, every write these functions perform themselves goes to an object allocated during the call — in
+// particular never into the backing array of the collection being filtered. (What the recursive evaluator does is
+// covered by its own obligations.)
+//@ func whereList
+//@   perwrite
+//@   maypanic
+//@   requires isList(list) && assign != nil
+//@   modifies mapof(assign)
+//@   loop 0 invariant [result-own] isList(listResult) && fresh(listResult) && fresh(listOf(listResult)) && fresh(listOf(listResult).Value)
+//@ func whereSet
+//@   perwrite
+//@   maypanic
+//@   requires isSet(list) && assign != nil
+//@   modifies mapof(assign)
+//@   loop 0 invariant [result-own] isSet(setResult) && fresh(setResult) && fresh(setOf(setResult)) && fresh(setOf(setResult).Value)
